@@ -61,7 +61,8 @@ def run_one(mod, spec, stats):
     """Run check on one spec. Returns None (held) or (bucket, detail) for a violation.
     Raises for harness errors."""
     try:
-        mod.check(spec, stats)
+        from . import sim
+        sim.run_case(mod, spec, stats, load_prop)
         return None
     except Violation as v:
         return (v.bucket, v.detail)
